@@ -195,9 +195,11 @@ var c12RespPool = []string{
 	"Server: Apache/2.4.57 (Unix)",
 	// a header that a profile legitimately configures more than once
 	"Set-Cookie: sid=7f3a; Path=/; HttpOnly", "Set-Cookie: lang=en", "Set-Cookie: theme=dark; Max-Age=3600",
+	// ... and the same name in another spelling
+	"set-cookie: seen=1", "SET-COOKIE: ab=2; Secure",
 }
 
-var c12Peers = []string{"198.51.100.7", "203.0.113.44", "10.1.2.3", "2001:db8::1", "fe80::1c2:3ff:fe04:5", "::1"}
+var c12Peers = []string{"198.51.100.7", "203.0.113.44", "10.1.2.3", "2001:db8::1", "fe80::1c2:3ff:fe04:5", "::1", "fe80::1%eth0", "fe80::fc:ff:fe00:1%2"}
 var c12XFF = []string{"192.0.2.61", "100.64.3.9", "2001:db8:85a3::8a2e:370:7334"}
 var c12Extra = []c12H{{"X-Extra", "1", false}, {"Accept-Language", "en-US", false}, {"Pragma", "no-cache", false}, {"Referer", "https://www.example.com/a: b", false}}
 
